@@ -110,6 +110,52 @@ def _job(batch):
     return res
 
 
+SEP = 'zzSEPzz'
+
+
+def _rt_job(batch):
+    """-E round trip: expected = clex tokens of the case; observed = clex tokens of cproc's -E text of the case."""
+    srv = fs.server('fs')
+    todo = []
+    for st, c in batch:
+        e = expected('; ' + c + '\n')
+        # a '#' that begins a logical line is a directive, not a token of the text
+        if isinstance(e, list) and not re.search(r'\n[ \t]*(/\*.*?\*/[ \t]*)*#', c.replace('\\\n', '')):
+            todo.append((st, c, e[1:]))
+    res = []
+
+    def one(st, c, e):
+        r = srv.run(['-E'], ('; ' + c + '\n').encode('latin-1'), 0, 5)
+        if r.status != 0:
+            return (st, c, e, ('status', r.status, r.err[:100].decode('latin-1')))
+        try:
+            return (st, c, e, clex.tokens(r.out.decode('latin-1'))[1:])
+        except ValueError as x:
+            return (st, c, e, ('status', 'unscannable', str(x)))
+    src = ''.join('; %s\n%s\n' % (c, SEP) for _, c, _ in todo)
+    r = srv.run(['-E'], src.encode('latin-1'), 0, 20)
+    per = None
+    if r.status == 0:
+        try:
+            toks = clex.tokens(r.out.decode('latin-1'))
+            per, cur = [], []
+            for t in toks:
+                if t == ('ident', SEP):
+                    per.append(cur[1:])
+                    cur = []
+                else:
+                    cur.append(t)
+            if len(per) != len(todo) or cur:
+                per = None
+        except ValueError:
+            per = None
+    if per is None:
+        return [one(*t) for t in todo]
+    for (st, c, e), g in zip(todo, per):
+        res.append((st, c, e, g) if g == e else one(st, c, e))
+    return res
+
+
 def clang_tokens(text):
     """Token spellings according to clang -dump-tokens, or None if clang diagnoses an error."""
     p = subprocess.run(['clang', '-std=c11', '-fsyntax-only', '-Xclang', '-dump-tokens', '-x', 'c', '-'],
@@ -171,6 +217,14 @@ def main(chk):
             if 0 < pos < len(s):
                 cases.append(('P5c', s[:pos] + '/**/' + s[pos:]))
                 cases.append(('P5l', s[:pos] + '//x\n' + s[pos:]))
+    # comments and splices inside each other: a // comment continued by a splice, a splice between the two characters of a
+    # comment opener or closer, comment openers inside the other kind of comment and inside literals
+    for a in ('a', '+', '1', '"s"'):
+        for b in ('b', '-', '2', "'c'"):
+            for mid in ('//x\\\ny\n', '//\\\n\\\nz\n', '/\\\n/x\n', '/\\\n*x*/', '/*x*\\\n/', '/*//*/', '//*x\n', '// /*\n', '/*\\\n*/', '//x\\ \n',
+                        '/* // */', '/**/', '/***/', '/*/*/', '//\\\n', '/* \\\n */', '"//"', '"/*"', "'/*'", '/* " */', "/* ' */", "// '\n", '// "\n'):
+                cases.append(('P5x', a + mid + b))
+                cases.append(('P5x', a + ' ' + mid + ' ' + b))
     chk.log('%d cases (P1 %d, P2 %d), excluded %r' % (len(cases), len(p1), len(p2), excluded))
 
     # batches: multi-line cases (P5) go one per run inside the job
@@ -199,6 +253,21 @@ def main(chk):
                 bad.append((st, c, e, g))
         if chk.expired():
             break
+    # P7: the -E text of every case, scanned again, is the same token sequence (token spelling table, separation of neighbours)
+    rt_cases = [(st, t) for st, t in cases if st != 'P2' or len(t) <= 5]
+    rtb = [rt_cases[i:i + 400] for i in range(0, len(rt_cases), 400)]
+    nrt = 0
+    for res in fs.pimap(_rt_job, rtb):
+        for st, c, e, g in res:
+            nrt += 1
+            if g != e:
+                chk.violation('P7/%s' % ('rejected-status-%s' % g[1] if isinstance(g, tuple) else 'round-trip-differs'),
+                              '%r: tokens %r, tokens of the -E text %r' % (c, e, g), files={'input.c': ('; ' + c + '\n').encode('latin-1')},
+                              cmd='$CPROC_QBE -E input.c')
+        if chk.expired():
+            break
+    nrun += nrt
+    strata['P7'] = nrt
     # P3: keywords and perturbations
     kwres = p3_keywords(chk, q)
     nrun += kwres['evaluations']
